@@ -148,45 +148,51 @@ def actualLen (ops : List Operand) : Nat := ops.foldl (fun a o => a + operandLen
 def segName : SegT → String
   | .code => "code" | .data => "data" | .eeprom => "eeprom"
 
-/-- `pass_1_internal` : (end offset, start offset, items, context) -/
+/-- prepend an output item to the result of the rest of the segment -/
+def consItem (x : Nat × Item) : Out (Nat × List (Nat × Item) × Ctx) → Out (Nat × List (Nat × Item) × Ctx)
+  | .ok (e, its, c) => .ok (e, x :: its, c)
+  | r => r
+
+/-- `pass_1_internal` : (end offset, output items, context) -/
 def pass1Items (t : SegT) (limit : Nat) :
-    List (Nat × Item) → Nat → List (Nat × Item) → Ctx → Out (Nat × List (Nat × Item) × Ctx)
-  | [], cur, out, ctx =>
-    if cur > limit then noLineErr "overdue" else .ok (cur, out.reverse, ctx)
-  | (ln, it) :: rest, cur, out, ctx =>
+    List (Nat × Item) → Nat → Ctx → Out (Nat × List (Nat × Item) × Ctx)
+  | [], cur, ctx =>
+    if cur > limit then noLineErr "overdue" else .ok (cur, [], ctx)
+  | (ln, it) :: rest, cur, ctx =>
     if cur > limit then lineErr ln "overdue" else
     match it with
     | .label name =>
       if (alookup name ctx.labels).isSome then lineErr ln "label-twice"
-      else pass1Items t limit rest cur out { ctx with labels := ainsert name (t, cur % 4294967296) ctx.labels }
+      else pass1Items t limit rest cur { ctx with labels := ainsert name (t, cur % 4294967296) ctx.labels }
     | .instruction op _ =>
       match t with
       | .code =>
         match info ctx.device.isAvr8l op with
-        | some (len, _) => pass1Items t limit rest (cur + len) ((ln, it) :: out) ctx
+        | some (len, _) => consItem (ln, it) (pass1Items t limit rest (cur + len) ctx)
         | none => .panic "no info row"
       | _ => lineErr ln "instruction-in-segment"
-    | .set _ _ | .def _ _ | .undef _ => pass1Items t limit rest cur ((ln, it) :: out) ctx
+    | .set _ _ | .def _ _ | .undef _ => consItem (ln, it) (pass1Items t limit rest cur ctx)
     | .data .db ops =>
       match t with
       | .code =>
         let ops' := if actualLen ops % 2 = 1 then ops ++ [.e (.const 0)] else ops
-        pass1Items t limit rest (cur + actualLen ops' / 2) ((ln, .data .db ops') :: out) ctx
-      | .eeprom => pass1Items t limit rest (cur + actualLen ops) ((ln, .data .db ops) :: out) ctx
+        consItem (ln, .data .db ops') (pass1Items t limit rest (cur + actualLen ops' / 2) ctx)
+      | .eeprom => consItem (ln, .data .db ops) (pass1Items t limit rest (cur + actualLen ops) ctx)
       | .data => lineErr ln "db-in-dseg"
     | .data dt ops =>
       let sz := match dt with | .dw => 2 | .dd => 4 | .dq => 8 | .db => 0
       match t with
-      | .code => pass1Items t limit rest (cur + ops.length * (sz / 2)) ((ln, it) :: out) ctx
-      | .eeprom => pass1Items t limit rest (cur + ops.length * sz) ((ln, it) :: out) ctx
+      | .code => consItem (ln, it) (pass1Items t limit rest (cur + ops.length * (sz / 2)) ctx)
+      | .eeprom => consItem (ln, it) (pass1Items t limit rest (cur + ops.length * sz) ctx)
       | .data => lineErr ln "dw-in-dseg"
     | .reserveData n =>
       match t with
       | .code => lineErr ln "byte-in-cseg"
       | _ =>
         if n < 0 ∨ n > 4294967295 then lineErr ln "byte-range" else
-        pass1Items t limit rest (cur + n.toNat) (if t = .eeprom then (ln, it) :: out else out) ctx
-    | .pragma _ => pass1Items t limit rest cur out ctx
+        if t = .eeprom then consItem (ln, it) (pass1Items t limit rest (cur + n.toNat) ctx)
+        else pass1Items t limit rest (cur + n.toNat) ctx
+    | .pragma _ => pass1Items t limit rest cur ctx
 
 structure Pass1Result where
   segments : List Segment
@@ -207,7 +213,7 @@ def pass1 (segs : List Segment) (messages : List Str) (ctx : Ctx) : Out Pass1Res
         | .eeprom => (eeOff, dev.eeprom)
       if s.address ≠ 0 ∧ s.address < offset then noLineErr "overlap" else
       let start := if s.address = 0 then offset else s.address
-      match pass1Items s.t limit s.items start [] ctx with
+      match pass1Items s.t limit s.items start ctx with
       | .ok (endOff, items, ctx) =>
         let seg : Segment := { items := items, t := s.t, address := start }
         match s.t with
